@@ -152,7 +152,7 @@ var (
 	c01AddrU = []string{"/p/x.sock", "", "relative.sock", "/" + strings.Repeat("a", 200), "@abstract", "/tmp/with space"}
 	c01Proto = []string{"\x00absent", "netrpc", "grpc", "", "GRPC", "junk", "netrpc "}
 	c01Mux   = []string{"\x00absent", "true", "false", "1", "0", "T", "yes", "", "TRUE", "t"}
-	c01Wrap  = []string{"lf", "crlf", "lead-blank", "trail-blank", "tabs", "noeol-exit", "noeol-close", "noeol-open", "nul-prefix", "nul-inside", "oversize", "empty-line-first", "second-line", "only-newline", "empty"}
+	c01Wrap  = []string{"lf", "crlf", "lead-blank", "trail-blank", "tabs", "noeol-exit", "noeol-close", "noeol-open", "nul-prefix", "nul-inside", "oversize", "empty-line-first", "second-line", "only-newline", "empty", "blank-then-silence", "blanks-crlf-then-silence", "blank-lines-then-line"}
 	c01SetsL = []string{"legacy1", "versioned12", "v0", "both123", "versioned8_10"}
 	c01TLSL  = []string{"none", "static", "auto"}
 )
@@ -222,6 +222,12 @@ func c01Wrapper(line, w string) ([]byte, string) {
 		return []byte(line + "\nsome later output\n"), "open"
 	case "only-newline":
 		return []byte("\n"), "exit"
+	case "blank-then-silence":
+		return []byte("\n"), "open"
+	case "blanks-crlf-then-silence":
+		return []byte("  \t \r\n"), "open"
+	case "blank-lines-then-line":
+		return []byte("\n \r\n" + line + "\n"), "open"
 	case "empty":
 		return nil, "exit"
 	}
